@@ -42,6 +42,13 @@ fn do_async_rstep(h: &mut Box<dyn vfs::async_vfs::SeekAndRead + Send + Unpin>, s
             Ok(pos) => StepRes::Pos(pos),
             Err(_) => StepRes::Err,
         },
+        RStep::ReadToEnd => {
+            let mut v = Vec::new();
+            match block_on(h.read_to_end(&mut v)) {
+                Ok(_) => StepRes::Read(v),
+                Err(_) => StepRes::Err,
+            }
+        }
     }) {
         Ok(r) => r,
         Err(m) => StepRes::Panic(m),
